@@ -183,6 +183,10 @@ impl SendStream {
     /// incorrect assumptions about the stream's state.
     pub fn finish(&mut self) -> Result<(), ClosedStream> {
         let mut conn = self.conn.state.lock("finish");
+        if self.is_0rtt && conn.check_0rtt().is_err() {
+            // The stream ID may since have been reused by an unrelated stream
+            return Ok(());
+        }
         match conn.inner.send_stream(self.stream).finish() {
             Ok(()) => {
                 conn.wake();
@@ -223,6 +227,9 @@ impl SendStream {
     /// impact on performance.
     pub fn set_priority(&self, priority: i32) -> Result<(), ClosedStream> {
         let mut conn = self.conn.state.lock("SendStream::set_priority");
+        if self.is_0rtt && conn.check_0rtt().is_err() {
+            return Ok(());
+        }
         conn.inner.send_stream(self.stream).set_priority(priority)?;
         Ok(())
     }
